@@ -85,6 +85,13 @@ func init() {
 		if p, ok := in.decodeToken(a[0], "b58"); ok {
 			return tuple{termsValue(p), iface{}}
 		}
+		if ss, ok := a[0].(*symStr); ok && len(ss.b) <= b58SymMax {
+			out, ok := in.b58DecodeSym(ss.b)
+			if !ok {
+				return tuple{sliceV(nil), in.newOpaqueErr("base58.Decode")}
+			}
+			return tuple{out, iface{}}
+		}
 		return in.decodeUnknown("base58.Decode", fn.Signature.Results().At(0).Type())
 	}
 	reg(enc+"base58.Decode", b58dec)
@@ -98,6 +105,13 @@ func init() {
 		}
 		if p, ok := in.decodeToken(a[0], "b58"); ok {
 			return termsValue(p)
+		}
+		if ss, ok := a[0].(*symStr); ok && len(ss.b) <= b58SymMax {
+			out, ok := in.b58DecodeSym(ss.b)
+			if !ok {
+				return sliceV(nil)
+			}
+			return out
 		}
 		in.unsupported("base58.DecodeOrNil of a foreign symbolic string")
 		return nil
@@ -159,4 +173,65 @@ func init() {
 		}
 		return in.decodeUnknown("base58check.Decode", fn.Signature.Results().At(0).Type())
 	})
+}
+
+// ---------------------------------------------------------------- base58 of short symbolic strings (exact)
+
+const b58SymMax = 4
+
+// b58 alphabet "123456789ABCDEFGHJKLMNPQRSTUVWXYZabcdefghijkmnopqrstuvwxyz" as (first char, last char, value of first)
+var b58Ranges = [][3]int{{'1', '9', 0}, {'A', 'H', 9}, {'J', 'N', 17}, {'P', 'Z', 22}, {'a', 'k', 33}, {'m', 'z', 44}}
+
+// b58DecodeSym decodes a string of symbolic bytes exactly as mr-tron/base58 does: ok=false when some byte is outside
+// the alphabet (forks); otherwise one zero byte per leading '1' followed by the minimal big-endian image of the number.
+func (in *Interp) b58DecodeSym(bs []*smt.Term) (sliceV, bool) {
+	c := in.ctx
+	n := len(bs)
+	if n == 0 {
+		return sliceV{}, true
+	}
+	k8 := func(v int) *smt.Term { return c.BVu(uint64(v), 8) }
+	var valid []*smt.Term
+	digits := make([]*smt.Term, n) // Int
+	for i, b := range bs {
+		var inAlpha []*smt.Term
+		d := c.Inti(0)
+		for j := len(b58Ranges) - 1; j >= 0; j-- {
+			r := b58Ranges[j]
+			inR := c.And(c.BVUle(k8(r[0]), b), c.BVUle(b, k8(r[1])))
+			inAlpha = append(inAlpha, inR)
+			d = c.Ite(inR, c.IAdd(c.BV2Nat(b), c.Inti(int64(r[2]-r[0]))), d)
+		}
+		valid = append(valid, c.Or(inAlpha...))
+		digits[i] = d
+	}
+	if !in.branch(c.And(valid...), "base58-alphabet") {
+		return nil, false
+	}
+	// leading '1's
+	var alts []*smt.Term
+	for z := 0; z <= n; z++ {
+		var cs []*smt.Term
+		for i := 0; i < z; i++ {
+			cs = append(cs, c.Eq(bs[i], k8('1')))
+		}
+		if z < n {
+			cs = append(cs, c.Not(c.Eq(bs[z], k8('1'))))
+		}
+		alts = append(alts, c.And(cs...))
+	}
+	z := in.fork(alts, "base58-leading-ones")
+	num := c.Inti(0)
+	for i := z; i < n; i++ {
+		num = c.IAdd(c.IMul(num, c.Inti(58)), digits[i])
+	}
+	out := make(sliceV, 0, n)
+	for i := 0; i < z; i++ {
+		out = append(out, k8(0))
+	}
+	if z < n {
+		in.addLemma(c.ILe(c.Inti(0), num))
+		out = append(out, in.bigToBytes(num, -1)...)
+	}
+	return out, true
 }
